@@ -682,6 +682,23 @@ def shrink(ops, bad):
     return cur
 
 
+class _Asker:
+    """one long-lived driver process for the request/response queries of the shrinker"""
+    def __init__(self):
+        self.p = None
+
+    def __call__(self, line):
+        if self.p is None:
+            from harness import checklib
+            self.p = checklib.DriverProc("batteries")
+        return self.p.ask(line)
+
+    def close(self):
+        if self.p is not None:
+            self.p.close()
+            self.p = None
+
+
 def corpus_cases(ctx):
     import glob
     import os
@@ -734,6 +751,8 @@ def run(ctx):
             lines.append(lean_line(cls, "battery", m, ops))      # set.pop: the model chooses by the implemented rule
         lines.append(lean_line(cls, "ref", m, with_oracle(ops, rb["res"]) if cls == "set" else ops))
     outl = ctx.driver("batteries", lines)
+    ask = _Asker()
+    shrinks_left = [6]              # disagreeing cases minimised per run (each costs up to 200 model queries)
     if len(outl) != len(lines):
         return {"error": "driver returned %d lines for %d requests" % (len(outl), len(lines))}
     k = 0
@@ -748,14 +767,16 @@ def run(ctx):
         k += 1
         for side, impl, model in pairs:
             if "error" in model or first_diff(impl, model) is not None or len(impl["res"]) != len(model.get("res", [])):
-                if len(disagreements) < 3:
+                if len(disagreements) < 3 and shrinks_left[0] > 0:
+                    shrinks_left[0] -= 1
+
                     def bad(c, side=side, cls=cls, m=m):
                         im = (run_battery(B, cls, m, c) if side == "battery" else run_ref(B, cls, m, c))
-                        mo = json.loads(ctx.driver("batteries", [lean_line(cls, side, m, with_oracle(c, im["res"]) if cls == "set" and side == "ref" else c)])[0])
+                        mo = json.loads(ask(lean_line(cls, side, m, with_oracle(c, im["res"]) if cls == "set" and side == "ref" else c)))
                         return "error" in mo or first_diff(im, mo) is not None
                     small = shrink(ops, bad)
                     im = (run_battery(B, cls, m, small) if side == "battery" else run_ref(B, cls, m, small))
-                    mo = json.loads(ctx.driver("batteries", [lean_line(cls, side, m, with_oracle(small, im["res"]) if cls == "set" and side == "ref" else small)])[0])
+                    mo = json.loads(ask(lean_line(cls, side, m, with_oracle(small, im["res"]) if cls == "set" and side == "ref" else small)))
                     if any(d["input"] == {"cls": cls, "side": side, "maxsize": m, "ops": small} for d in disagreements):
                         continue
                     disagreements.append({"input": {"cls": cls, "side": side, "maxsize": m, "ops": small},
@@ -789,6 +810,7 @@ def run(ctx):
                 else:
                     violations.append(v)
 
+    ask.close()
     missing = []
     for cls, keys in FLOORS.items():
         for key in keys:
